@@ -414,19 +414,32 @@ func cliEmit(r *Run, g *gen.G, docs []any, fflag, oext, iext, kf string) []byte 
 	}
 	os.WriteFile(filepath.Join(dir, real), b, 0o644)
 	argv := []string{filepath.Join(binDir(), "bkl")}
+	// the spelling and the place of an option do not matter: short, long, long with "=",
+	// attached, before or after the inputs (og is separate so that the streams stay as they were)
+	og := gen.New(int64(len(b))*131 + int64(len(fflag)+7*len(oext)+49*len(iext)))
+	var opts []string
 	if fflag != "" {
-		argv = append(argv, "-f", fflag)
+		opts = append(opts, [][]string{{"-f", fflag}, {"--format", fflag}, {"--format=" + fflag}, {"-f" + fflag}}[og.N(4)]...)
 	}
 	opath := ""
 	if oext != "" {
 		opath = "out." + oext
-		argv = append(argv, "-o", opath)
+		o := [][]string{{"-o", opath}, {"--output", opath}, {"--output=" + opath}, {"-o" + opath}}[og.N(4)]
+		if og.P(0.5) {
+			opts = append(o, opts...)
+		} else {
+			opts = append(opts, o...)
+		}
 		if g.P(0.5) {
 			// the output file exists already and is LONGER than what will be written
 			os.WriteFile(filepath.Join(dir, opath), []byte(strings.Repeat("stale: content of an earlier run\n", 200)), 0o644)
 		}
 	}
 	input := "in." + iext
+	optsLast := og.P(0.4)
+	if !optsLast {
+		argv = append(argv, opts...)
+	}
 	argv = append(argv, input)
 	inputs := []string{"/w/" + input}
 	if len(docs) > 1 && g.P(0.25) {
@@ -440,6 +453,9 @@ func cliEmit(r *Run, g *gen.G, docs []any, fflag, oext, iext, kf string) []byte 
 		in2 := "second." + g.Pick([]string{"yaml", "toml", "json", "yml", "jsonl", "json-pretty"})
 		argv = append(argv, in2)
 		inputs = append(inputs, "/w/"+in2)
+	}
+	if optsLast {
+		argv = append(argv, opts...)
 	}
 	res := fsx.Run(dir, argv, nil, nil, procTimeout, false)
 	out := res.Stdout
